@@ -40,15 +40,20 @@ type Opts struct {
 	SigAlg     string
 	NoSigAlg   bool // leave SignatureAlgorithm empty
 	MetaSigAlg string
-	WantSigned string
-	TimeFormat string
-	Endpoints  *provider.EndpointConfig
-	Metadata   *provider.Endpoint
-	Org        *provider.Organisation
-	Contact    *provider.ContactPerson
-	EncAlg     string
-	MetaIDP    *provider.MetadataIDPConfig
-	World      *sim.World
+	// configuration fields that exist and that the library does not read today: set now and then so that a change
+	// which starts reading them on one side only is noticed
+	MetaPath     string // MetadataConfig.Path
+	DigestAlg    string // IdentityProviderConfig.DigestAlgorithm
+	InsecureFlag bool   // IdentityProviderConfig.Insecure
+	WantSigned   string
+	TimeFormat   string
+	Endpoints    *provider.EndpointConfig
+	Metadata     *provider.Endpoint
+	Org          *provider.Organisation
+	Contact      *provider.ContactPerson
+	EncAlg       string
+	MetaIDP      *provider.MetadataIDPConfig
+	World        *sim.World
 	// IssuerFactory overrides the issuer selection (a factory value shared between providers).
 	IssuerFactory func(bool) (provider.IssuerFromRequest, error)
 }
@@ -81,9 +86,10 @@ func New(o Opts) (*Env, error) {
 		idpc.SignatureAlgorithm = spsim.AlgRSASHA256
 	}
 	conf := &provider.Config{IDPConfig: idpc, Metadata: o.Metadata, Organisation: o.Org, ContactPerson: o.Contact}
-	if o.MetaSigAlg != "" {
-		conf.MetadataConfig = &provider.MetadataConfig{SignatureAlgorithm: o.MetaSigAlg}
+	if o.MetaSigAlg != "" || o.MetaPath != "" {
+		conf.MetadataConfig = &provider.MetadataConfig{SignatureAlgorithm: o.MetaSigAlg, Path: o.MetaPath}
 	}
+	idpc.DigestAlgorithm, idpc.Insecure = o.DigestAlg, o.InsecureFlag
 	var iss func(bool) (provider.IssuerFromRequest, error)
 	switch {
 	case o.IssuerFactory != nil:
